@@ -44,10 +44,22 @@ def to_dm(x):
     return x
 
 
-def to_np(x):
+# positional arguments that are per-segment / per-link vectors (kept as 1-D arrays when a DM is
+# converted for the NumPy side); every other 1x1 DM is a scalar parameter or an origin /
+# destination quantity and becomes a float, which is what the element layer passes there
+VECTOR_ARGS = {
+    "get_upstream_flow": (0, 2), "get_upstream_speed": (0, 1), "get_downstream_density": (0,),
+    "get_flow": (0, 1), "step_density": (0, 1, 2), "step_speed": (0, 1, 2, 3, 4), "Veq": (0,),
+    "controlled_Veq": (0, 1), "max": (0, 1), "vcat": tuple(range(16)),
+}
+
+
+def to_np(x, vector=True):
     if _is_dm(x):
-        a = np.asarray(x, dtype=float)
-        return a.reshape(-1).copy()
+        a = np.asarray(x, dtype=float).reshape(-1).copy()
+        if not vector and a.size == 1:
+            return float(a[0])
+        return a
     return x
 
 
@@ -183,9 +195,13 @@ class PrimMonitor:
             fn(kind, args, kwargs, res, rec)
         if not self.shadow:
             return
-        conv = to_dm if kind == "numpy" else to_np
-        a2 = [conv(a) for a in args]
-        k2 = {k: conv(v) for k, v in kwargs.items()}
+        if kind == "numpy":
+            a2 = [to_dm(a) for a in args]
+            k2 = {k: to_dm(v) for k, v in kwargs.items()}
+        else:
+            vecs = VECTOR_ARGS.get(name, ())
+            a2 = [to_np(a, i in vecs) for i, a in enumerate(args)]
+            k2 = {k: to_np(v, False) for k, v in kwargs.items()}
         self.depth += 1
         try:
             if eng is None:
